@@ -966,10 +966,13 @@ impl<C: BgpConfig + Send> Session<C> {
                 // Our own OPEN advertises SendReceive for every family in
                 // config.addpath() (see send_open), so the negotiated
                 // direction is the merge of that with what the peer sent.
-                let intersection = received_addpaths.iter().filter(|(fam, _dir)|{
-                    self.config.addpath().contains(fam)
-                }).filter_map(|(fam, dir)| {
-                    AddpathDirection::SendReceive.merge(*dir)
+                // As in OpenMessage::addpath_intersection, the peer's first
+                // entry for a family counts if it names the family twice.
+                let intersection = self.config.addpath().iter().filter_map(|fam| {
+                    received_addpaths.iter().find(|(f, _dir)| f == fam)
+                        .and_then(|(_f, dir)| {
+                            AddpathDirection::SendReceive.merge(*dir)
+                        })
                         .map(|merged| AddpathFamDir::new(*fam, merged))
                 }).collect::<Vec<_>>();
                 debug!("addpath intersection: {:?}", &intersection);
@@ -1282,10 +1285,13 @@ impl<C: BgpConfig + Send> Session<C> {
                 // Our own OPEN advertises SendReceive for every family in
                 // config.addpath() (see send_open), so the negotiated
                 // direction is the merge of that with what the peer sent.
-                let intersection = received_addpaths.iter().filter(|(fam, _dir)|{
-                    self.config.addpath().contains(fam)
-                }).filter_map(|(fam, dir)| {
-                    AddpathDirection::SendReceive.merge(*dir)
+                // As in OpenMessage::addpath_intersection, the peer's first
+                // entry for a family counts if it names the family twice.
+                let intersection = self.config.addpath().iter().filter_map(|fam| {
+                    received_addpaths.iter().find(|(f, _dir)| f == fam)
+                        .and_then(|(_f, dir)| {
+                            AddpathDirection::SendReceive.merge(*dir)
+                        })
                         .map(|merged| AddpathFamDir::new(*fam, merged))
                 }).collect::<Vec<_>>();
                 debug!("addpath intersection: {:?}", &intersection);
